@@ -39,10 +39,13 @@ def build_system(spec):
     ta = qr.TimeAxis(spec.get("t0", 0.0), spec["nt"], spec["dt"])
     mols = []
     with qr.energy_units("1/cm"):
+        cf = None
         for i in range(n):
             m = qr.Molecule([0.0, spec["en"][i]])
-            cf = qr.CorrelationFunction(ta, dict(ftype="OverdampedBrownian", reorg=spec["reorg"][i], cortime=spec["cortime"][i],
-                                                 T=spec["T"], matsubara=20))
+            if cf is None or not spec.get("one_bath"):
+                # "one_bath": every molecule gets the SAME correlation function object (the usual shortcut in user code)
+                cf = qr.CorrelationFunction(ta, dict(ftype="OverdampedBrownian", reorg=spec["reorg"][i], cortime=spec["cortime"][i],
+                                                     T=spec["T"], matsubara=20))
             m.set_transition_environment((0, 1), cf)
             m.set_dipole(0, 1, [1.0, 0.0, 0.0])
             mols.append(m)
@@ -51,6 +54,41 @@ def build_system(spec):
             agg.set_resonance_coupling(i, j, v)
     agg.build()
     return agg
+
+
+def apply_edit(agg, ed):
+    """The user gives one site another bath: a new correlation function goes into the bath matrix of the built system."""
+    import quantarhei as qr
+    sbi = agg.get_SystemBathInteraction()
+    with qr.energy_units("1/cm"):
+        cf = qr.CorrelationFunction(sbi.TimeAxis, dict(ftype="OverdampedBrownian", reorg=ed["reorg"], cortime=ed["cortime"], T=300, matsubara=20))
+    sbi.CC.set_correlation_function(cf, [(ed["k"], ed["k"])])
+
+
+def build_direct(nfun):
+    """A system put together by hand: Hamiltonian, a bath matrix with room for two functions, system-bath interaction."""
+    import quantarhei as qr
+    from quantarhei.qm import SystemBathInteraction, ProjectionOperator
+    from quantarhei.qm.corfunctions.cfmatrix import CorrelationFunctionMatrix
+    time = qr.TimeAxis(0.0, 300, 1.0)
+    with qr.energy_units("1/cm"):
+        ham = qr.Hamiltonian(data=[[0.0, 0.0, 0.0], [0.0, 12000.0, 40.0], [0.0, 40.0, 12150.0]])
+    ham.set_rwa([0, 1])
+    cfm = CorrelationFunctionMatrix(time, 2, 2)
+    sbi = SystemBathInteraction([ProjectionOperator(1, 1, dim=3), ProjectionOperator(2, 2, dim=3)], cfm)
+    d = {"ham": ham, "cfm": cfm, "sbi": sbi, "time": time, "nfun": 0}
+    for _ in range(nfun):
+        direct_add_function(d)
+    return d
+
+
+def direct_add_function(d):
+    import quantarhei as qr
+    k = d["nfun"]
+    with qr.energy_units("1/cm"):
+        cf = qr.CorrelationFunction(d["time"], dict(ftype="OverdampedBrownian", reorg=[30.0, 80.0][k], cortime=[100.0, 60.0][k], T=300, matsubara=20))
+    d["cfm"].set_correlation_function(cf, [(k, k)], k + 1)
+    d["nfun"] = k + 1
 
 
 def state_array(dim, st):
@@ -81,11 +119,29 @@ class Built:
         self.specs = systems
         self.sys = {}
         self.tensors = {}
+        self.applied = {}
+        self.ver = 0           # bath edits that precede the evaluated call
+        self.tver = 0          # bath edits that preceded the construction of the tensor it uses
+        self.tensor_built = False
+
+    def advance(self, j, ver):
+        eds = self.specs[j].get("edits", [])
+        while self.applied[j] < min(ver, len(eds)):
+            apply_edit(self.sys[j], eds[self.applied[j]])
+            self.applied[j] += 1
 
     def system(self, j):
         if j not in self.sys:
             self.sys[j] = build_system(self.specs[j])
+            self.applied[j] = 0
+        self.advance(j, self.ver if self.tensor_built else min(self.tver, self.ver))
         return self.sys[j]
+
+    def finish(self, j):
+        """All edits that precede the evaluated call are in place from here on."""
+        self.tensor_built = True
+        if j in self.sys:
+            self.advance(j, self.ver)
 
     def tensor(self, j, th, unit=None, recalc=True):
         import quantarhei as qr
@@ -93,6 +149,7 @@ class Built:
         if key not in self.tensors:
             agg = self.system(j)
             self.tensors[key] = relaxation_tensor(agg, th, unit, recalc)
+        self.finish(j)
         return self.tensors[key]
 
 
@@ -132,12 +189,38 @@ def evaluate(expr, systems, shared=None):
     import quantarhei as qr
     B = shared if shared is not None else Built(systems)
     kind = expr["kind"]
+    if shared is None:
+        B.ver = expr.get("ver", 0)
+        sub = expr.get("prop") if isinstance(expr.get("prop"), dict) else expr
+        B.tver = sub.get("tver", B.ver)
+        if kind not in ("tensor", "propagate_rdm", "eso") or (kind == "propagate_rdm" and expr["prop"]["th"] is None):
+            B.tensor_built = True      # no tensor involved: all edits apply at once
     if kind == "tensor":
         RT, ham = (B.tensor(expr["sys"], expr["th"], expr.get("unit"), expr.get("recalc", True)) if shared is None
                    else shared.new_tensor(expr["sys"], expr["th"], expr.get("unit"), expr.get("recalc", True)))
         out = tensor_fields(RT)
         out["H"] = numpy.array(ham.data)
         return out
+    if kind == "direct_tensor":
+        from quantarhei.qm import FoersterRelaxationTensor, TDFoersterRelaxationTensor
+        d = shared.direct() if shared is not None else build_direct(expr["nfun"])
+        if expr["cls"] == "F":
+            RT = FoersterRelaxationTensor(d["ham"], d["sbi"], pure_dephasing=True)
+        else:
+            RT = TDFoersterRelaxationTensor(d["ham"], d["sbi"])
+        return {"data": numpy.array(RT.data)}
+    if kind == "rwa_query":
+        # a read-only request made under other units: the rotating-wave skeleton and data of the system's Hamiltonian
+        agg = B.system(expr["sys"])
+        H = agg.get_Hamiltonian()
+        with qr.energy_units(expr["unit"]):
+            sk = numpy.array(H.get_RWA_skeleton())
+            dat = numpy.array(H.get_RWA_data())
+        return {"skeleton": sk, "data": dat}
+    if kind == "bad_set_rwa":
+        agg = B.system(expr["sys"])
+        agg.get_Hamiltonian().set_rwa([1, 2])          # refused: the first block has to start at zero
+        return {"never": numpy.zeros(1)}
     if kind == "rates":
         agg = B.system(expr["sys"])
         return {"K": numpy.array(agg.get_RedfieldRateMatrix().data)}
@@ -313,7 +396,8 @@ class World:
                        "refused_call_in_history", "hierarchy_shared_by_two_propagators",
                        "tensor_requested_without_recalculation_after_another", "tensor_with_inhomogeneous_term",
                        "inhomogeneous_tensor_shared_by_two_propagators", "ordinary_heom_run_after_free_hierarchy_run",
-                       "bath_time_axis_not_starting_at_zero"]
+                       "bath_time_axis_not_starting_at_zero", "bath_edited_between_calls",
+                       "function_added_to_a_free_slot_of_the_bath_matrix"]
     required_faults = []
     components = {
         "real": ["Aggregate/Molecule builders", "OpenSystem.get_RelaxationTensor (stR TI/TD, operator form, secular; stF TI/TD; cRF with cut-off)",
@@ -339,7 +423,7 @@ class World:
         systems = []
         for _ in range(nsys):
             n = rng.choice([2, 2, 3])
-            systems.append({"n": n, "nt": 200, "dt": 2.0, "T": 300, "t0": rng.choice([0.0, 0.0, 0.0, 10.0, 4.0]),
+            systems.append({"n": n, "nt": 200, "dt": 2.0, "T": 300, "t0": rng.choice([0.0, 0.0, 0.0, 10.0, 4.0]), "one_bath": rng.random() < 0.4,
                             "en": [round(rng.uniform(11800, 12300), 1) for _ in range(n)],
                             "reorg": [round(rng.uniform(10, 60), 1) for _ in range(n)],
                             "cortime": [round(rng.uniform(40, 150), 1) for _ in range(n)],
@@ -349,7 +433,8 @@ class World:
             ths = rng.sample(ths, rng.randint(1, 3))
         n = rng.randint(3, 12)
         ops = []
-        kinds = ["tensor", "tensor", "make_rdm", "make_rdm", "propagate_rdm", "propagate_rdm", "propagate_rdm", "set_ref", "rates",
+        kinds = ["rwa_query", "bad_set_rwa", "edit_bath", "direct_tensor", "direct_edit",
+                 "tensor", "tensor", "make_rdm", "make_rdm", "propagate_rdm", "propagate_rdm", "propagate_rdm", "set_ref", "rates",
                  "thermal", "propagate_sv", "propagate_pop", "pop_matrix", "make_heom", "propagate_heom", "propagate_heom", "eso",
                  "propagate_rdm", "set_ref"]
         if rng.random() < 0.5:
@@ -387,6 +472,14 @@ class World:
                     op["ctx"] = None
             elif k == "set_ref":
                 op["n"] = rng.choice([1, 2, 3, 5])
+            elif k == "rwa_query":
+                op["unit"] = rng.choice(["1/cm", "eV", "1/cm"])
+            elif k == "direct_tensor":
+                op["cls"] = rng.choice(["F", "F", "TDF"])
+            elif k == "edit_bath":
+                op["k"] = rng.randrange(3)
+                op["reorg"] = round(rng.uniform(20, 90), 1)
+                op["cortime"] = round(rng.uniform(40, 120), 1)
             elif k in ("propagate_sv", "propagate_pop", "pop_matrix"):
                 op["state"] = {"kind": "site", "k": rng.randrange(4)}
                 op["nt"] = rng.choice([20, 50])
@@ -461,22 +554,55 @@ class Runner:
         svs, pops = {}, {}
         states = {}       # (sys, json(state)) -> exists
         plan = []
+        dfun = [1]                         # bath functions set in the hand-made system (it starts with one)
+        ver = [0] * len(S)                 # number of bath edits made so far, per system
+        for sp in S:
+            sp["edits"] = []
+
+        def V(expr, j, tver=None):
+            """Stamp an expression with the bath version it sees (and the one its tensor was built at)."""
+            if ver[j]:
+                expr["ver"] = ver[j]
+            if tver is not None and tver != ver[j]:
+                (expr["prop"] if isinstance(expr.get("prop"), dict) else expr)["tver"] = tver
+            return expr
+
         for op in self.p["ops"]:
             k = op["op"]
             j = op["sys"] % len(S)
             spec = S[j]
-            if k == "tensor":
+            if k == "direct_tensor":
+                plan.append(("direct_tensor", {"kind": "direct_tensor", "cls": op["cls"], "nfun": dfun[0]}, None))
+            elif k == "direct_edit":
+                if dfun[0] >= 2:
+                    plan.append(("noop", None, None))
+                else:
+                    dfun[0] += 1
+                    plan.append(("direct_edit", None, None))
+            elif k == "edit_bath":
+                ed = {"k": op["k"] % spec["n"], "reorg": op["reorg"], "cortime": op["cortime"]}
+                spec["edits"].append(ed)
+                ver[j] += 1
+                for h in heoms:
+                    if h["sys"] == j:
+                        h["stale"] = True       # a hierarchy describes the bath it was built from
+                plan.append(("edit_bath", None, (j, ed)))
+            elif k == "rwa_query":
+                plan.append(("pure", V({"kind": "rwa_query", "sys": j, "unit": op["unit"]}, j), None))
+            elif k == "bad_set_rwa":
+                plan.append(("refused_set_rwa", V({"kind": "bad_set_rwa", "sys": j}, j), None))
+            elif k == "tensor":
                 unit = op.get("unit")
                 expr = {"kind": "tensor", "sys": j, "th": op["th"], "unit": unit}
                 recalc = op.get("recalc", True)
                 if not recalc:
                     expr["recalc"] = False
-                tensors.append((j, op["th"], unit, recalc))
-                plan.append(("tensor", expr, len(tensors) - 1))
+                tensors.append((j, op["th"], unit, recalc, ver[j]))
+                plan.append(("tensor", V(expr, j), len(tensors) - 1))
             elif k == "rates":
-                plan.append(("pure", {"kind": "rates", "sys": j}, None))
+                plan.append(("pure", V({"kind": "rates", "sys": j}, j), None))
             elif k == "thermal":
-                plan.append(("pure", {"kind": "thermal", "sys": j}, None))
+                plan.append(("pure", V({"kind": "thermal", "sys": j}, j), None))
             elif k == "make_rdm":
                 mine = [t for t in tensors if t[0] == j]
                 if op.get("free") or not mine:
@@ -487,7 +613,8 @@ class Runner:
                 nt = min(op["nt"], spec["nt"] // op["mult"])
                 td = th is not None and THEORIES[th][1].get("time_dependent")
                 props.append({"sys": j, "th": th, "unit": None if tslot is None else tensors[tslot][2],
-                              "recalc": True if tslot is None else tensors[tslot][3], "tslot": tslot, "nt": nt,
+                              "recalc": True if tslot is None else tensors[tslot][3], "tver": 0 if tslot is None else tensors[tslot][4],
+                              "tslot": tslot, "nt": nt,
                               "dt": spec["dt"] * op["mult"], "nref": 1,
                               "pdeph": None if (td or th is None) else op.get("pdeph")})
                 plan.append(("make_rdm", None, len(props) - 1))
@@ -516,22 +643,23 @@ class Runner:
                         "state": op["state"], "nref_setting": nref_setting, "nref_arg": nref_arg, "ctx": op.get("ctx")}
                 if not P.get("recalc", True):
                     expr["prop"]["recalc"] = False
+                V(expr, P["sys"], P["tver"] if P["th"] is not None else None)
                 if nref_arg > 1:
                     P["nref"] = nref_arg            # documented: propagate(Nref>1) sets the refinement
                 plan.append(("propagate_rdm", expr, (pi, bool(op["new_state"]))))
             elif k in ("propagate_sv", "propagate_pop"):
                 expr = {"kind": k, "sys": j, "nt": op["nt"], "dt": spec["dt"], "state": op["state"]}
-                plan.append((k, expr, bool(op["new"])))
+                plan.append((k, V(expr, j), bool(op["new"])))
             elif k == "pop_matrix":
                 expr = {"kind": "pop_matrix", "sys": j, "nt": op["nt"], "dt": spec["dt"], "corr": op["corr"], "m": op["m"]}
-                plan.append((k, expr, bool(op["new"])))
+                plan.append((k, V(expr, j), bool(op["new"])))
             elif k == "make_heom":
                 if op.get("norwa"):
                     # a hierarchy for a Hamiltonian built from a matrix (no rotating-wave reference): the constructor of the
                     # propagator refuses it; a refused call must leave the Hamiltonian it was given alone
                     plan.append(("refused_heom", {"kind": "refused_heom", "sys": j, "depth": op["depth"], "nt": op["nt"]}, None))
                     continue
-                mine = [h for h in heoms if h["sys"] == j]
+                mine = [h for h in heoms if h["sys"] == j and not h.get("stale")]
                 if op.get("share") and mine:
                     # a second propagator (another time axis) attached to a hierarchy that already has one
                     old = mine[op["a"] % len(mine)]
@@ -540,12 +668,13 @@ class Runner:
                     heoms.append({"sys": j, "depth": op["depth"], "nt": op["nt"], "dt": 1.0, "hy": len(set(h["hy"] for h in heoms))})
                 plan.append(("make_heom", None, len(heoms) - 1))
             elif k == "propagate_heom":
-                if not heoms:
+                live = [n for n, h in enumerate(heoms) if not h.get("stale")]
+                if not live:
                     plan.append(("noop", None, None))
                     continue
-                hi = op["a"] % len(heoms)
+                hi = live[op["a"] % len(live)]
                 Hh = heoms[hi]
-                expr = {"kind": "propagate_heom", "sys": Hh["sys"], "depth": Hh["depth"], "nt": Hh["nt"], "dt": Hh["dt"], "state": op["state"]}
+                expr = V({"kind": "propagate_heom", "sys": Hh["sys"], "depth": Hh["depth"], "nt": Hh["nt"], "dt": Hh["dt"], "state": op["state"]}, Hh["sys"])
                 if op.get("free"):
                     expr["free"] = True
                 if op.get("report"):
@@ -561,7 +690,7 @@ class Runner:
                         "dense": op["dense"]}
                 if not tensors[tslot][3]:
                     expr["recalc"] = False
-                plan.append(("eso", expr, tslot))
+                plan.append(("eso", V(expr, j, tensors[tslot][4]), tslot))
             else:
                 plan.append(("noop", None, None))
         self.plan_tensors, self.plan_props, self.plan_heoms = tensors, props, heoms
@@ -650,6 +779,18 @@ class Runner:
             if k == "noop":
                 self.ctx.ev(i, "noop")
                 continue
+            if k == "direct_edit":
+                direct_add_function(self.shared.direct())
+                self.ctx.probe("function_added_to_a_free_slot_of_the_bath_matrix")
+                self.ctx.ev(i, k)
+                continue
+            if k == "edit_bath":
+                j, ed = aux
+                apply_edit(self.shared.system(j), ed)
+                self.ctx.probe("bath_edited_between_calls")
+                self.ctx.ev(i, k, j, ed["k"])
+                self.ctx.cov(k, ed["k"])
+                continue          # the user changed an input on purpose: nothing to compare here
             before = self.fp_all()
             if k == "make_rdm":
                 P = self.plan_props[aux]
@@ -819,6 +960,11 @@ class Shared:
             self.sys[j] = build_system(self.specs[j])
         return self.sys[j]
 
+    def direct(self):
+        if getattr(self, "_direct", None) is None:
+            self._direct = build_direct(1)
+        return self._direct
+
     def plain_hamiltonian(self, j):
         qr = self.r.qr
         if j not in self.plain:
@@ -900,7 +1046,7 @@ class Shared:
         from quantarhei.qm.propagators.poppropagator import PopulationPropagator
         qr = self.r.qr
         k, e, new = self.current
-        key = (expr["sys"], expr["nt"])
+        key = (expr["sys"], expr["nt"], expr.get("ver", 0))
         if new or key not in self.pop_props:
             self.pop_props[key] = PopulationPropagator(qr.TimeAxis(0.0, expr["nt"], expr["dt"]), self.system(expr["sys"]).get_RedfieldRateMatrix().data)
             self.last_prop_reused = False
